@@ -464,6 +464,13 @@ func (b *Builder) CheckEOIMatch(states []nfa.StateID, isFromWord bool) bool {
 	// Also check end-of-text assertions (\z, $)
 	// At EOI, both are satisfied
 	lookHave := LookSetForEOI()
+	// Keep the word assertion satisfied too: in `$\b` the \b only becomes
+	// reachable after $ has been crossed.
+	if wordBoundarySatisfied {
+		lookHave |= LookWordBoundary
+	} else {
+		lookHave |= LookNoWordBoundary
+	}
 
 	// Expand with end-of-text assertions
 	final := b.epsilonClosure(resolved, lookHave)
